@@ -158,9 +158,16 @@ def analyse(run: Any, expects: Dict[tuple, Expect], retire_probe: bool = True) -
 
     aborted = run.status != "ok"
     for tok, ea in toks.items():
-        V.extend(_analyse_exec(run, ea, retire_probe, aborted, op_end_seq))
+        W = _analyse_exec(run, ea, retire_probe, aborted, op_end_seq)
+        if ea.ex is not None and ea.ex.kind == "rerun":
+            # second run of an executor: whatever goes wrong in it is the single-use clause (C15.c)
+            for w in W:
+                w["tags"] = sorted(set(w["tags"]) | {"was:" + w["g"]})
+                w["g"] = "rerun"
+        V.extend(W)
 
     # ---- operation outcomes (value / raise)
+    state_seen: Dict[tuple, Any] = {}
     for c, ops in enumerate(scn["clients"]):
         for i, op in enumerate(ops):
             if op["op"] == "gather":
@@ -186,6 +193,9 @@ def analyse(run: Any, expects: Dict[tuple, Expect], retire_probe: bool = True) -
                 continue
             if ex.kind == "graph":
                 V.extend(_graph(run, (c, i, 0), ex, out))
+                continue
+            if ex.kind in ("cachekeys", "reskeys", "snapshot"):
+                V.extend(_state_ops(run, (c, i, 0), ex, out, state_seen))
                 continue
             V.extend(_outcome(run, (c, i, 0), ex, out))
     return V
@@ -279,6 +289,36 @@ def _graph(run: Any, key: tuple, ex: Expect, out: dict) -> List[dict]:
     if got != want:
         return [viol("graph", f"executor.graph holds statements {sorted(got)}, documented closure is {sorted(want)}", op=key,
                      tags=["debug"] if (got ^ want) <= is_debug else [])]
+    return []
+
+
+def _state_ops(run: Any, key: tuple, ex: Expect, out: dict, seen: Dict[tuple, Any]) -> List[dict]:
+    if out["status"] != "ok":
+        return [viol("raise", f"state inspection raised {out['type']}: {out['msg'][:200]}", op=key, tags=["exc:" + out["type"]])]
+    table = run.tables.get(run.inst_table.get(ex.inst, ""), {})
+    funcs = run.spec["funcs"]
+    if ex.kind == "cachekeys":
+        got = {table[k]["path"][0][1] for k in out["value"] if k in table and table[k]["role"] == "main" and len(table[k]["path"]) == 1}
+        if got != set(ex.selected or ()):
+            return [viol("cache_keys", f"cache file holds results of statements {sorted(got)}, expected {sorted(ex.selected or ())}", op=key)]
+        return []
+    if ex.kind == "reskeys":
+        keys = set(out["value"])
+        base = seen.setdefault(("keys", ex.inst), keys)
+        extra = keys ^ base
+        bad = [k for k in extra if not (k in table and table[k]["role"] == "main" and funcs.get(table[k].get("fn"), {}).get("setup"))]
+        if bad:
+            return [viol("state_leak", f"DAG.results keys changed by {sorted(bad)[:5]} (not setup nodes)", op=key)]
+        return []
+    if ex.kind == "snapshot":
+        base = seen.setdefault(("snap", ex.inst), out["value"])
+        cur = out["value"]
+        if base["nodes"] != cur["nodes"] or base["edges"] != cur["edges"]:
+            return [viol("state_leak", "node table / dependency edges of the DAG changed", op=key)]
+        diff = {k for k in set(base["results"]) ^ set(cur["results"])} | {k for k in base["results"] if k in cur["results"] and base["results"][k] != cur["results"][k]}
+        bad = [k for k in diff if not (k in table and table[k]["role"] == "main" and funcs.get(table[k].get("fn"), {}).get("setup"))]
+        if bad:
+            return [viol("state_leak", f"DAG.results changed for {sorted(bad)[:5]}", op=key)]
     return []
 
 
